@@ -204,6 +204,70 @@ def explore_graphs(item, rec):
     rec.count("states", len(states))
 
 
+def explore_clause_graphs(item, rec):
+    """statements reading scalars produced by other statements from inside a clause (model + implementation level)"""
+    graphs, seed = item
+    V = harness.boot()
+    from vtlengine.AST.DAG import DAGAnalyzer
+    faults.install()
+    structs, dps = G.structures(1), G.frames(1)
+    states = set()
+    for graph in graphs:
+        st = G.clause_statements(graph)
+        n = len(st)
+        reads = {nm: rd for nm, _, rd in st}
+        exp = G.clause_expected(graph)
+        for mask in itertools.product((False, True), repeat=n):
+            for order in (tuple(range(n)), tuple(reversed(range(n)))):
+                script = G.clause_render(graph, mask, order)
+                ast = V.create_ast(script)
+                order_names = [c.left.value for c in ast.children]
+                sched = DAGAnalyzer.ds_structure(ast)
+                for rop in (True, False):
+                    returnable = {st[i][0] for i in range(n) if mask[i] or not rop}
+                    mt = model_trace(sched, order_names, returnable)
+                    store = Store(reads, ["I1"], returnable)
+                    for e in mt:
+                        store.step(e)
+                    probs = store.finish()
+                    states |= store.states
+                    rec.count("transitions", store.transitions)
+                    replay = {"clause_graph": graph, "mask": mask, "rop": rop, "order": order}
+                    for kind, what in probs:
+                        rec.violation("C13:model:clause-reference:%s" % kind, "schedule of %r (rop=%s): %s %s; trace %s" % (script, rop, kind, what, mt), replay)
+                    out, s = faults.run_traced(lambda: V.run(script, structs, dps, return_only_persistent=rop))
+                    if out[0] != "ok":
+                        rec.case(("impl-clause", n, "error"), "impl-error")
+                        rec.violation("C13:impl:clause-reference:run-fails:%s" % out[2], "run(%r, rop=%s) raises %s" % (script, rop, str(out[1:])[:300]), replay)
+                        continue
+                    it = impl_trace(s, {"I1"})
+                    st2 = Store(reads, ["I1"], returnable)
+                    for e in it:
+                        st2.step(e)
+                    probs2 = st2.finish()
+                    states |= st2.states
+                    rec.count("transitions", st2.transitions)
+                    for kind, what in probs2:
+                        rec.violation("C13:impl:clause-reference:%s" % kind, "run(%r, rop=%s): %s %s; events %s" % (script, rop, kind, what, it), replay)
+                    if it == mt:
+                        rec.count("traces_matched")
+                    else:
+                        rec.violation("C13:impl:clause-reference:trace-differs-from-schedule", "run(%r): events %s, schedule prescribes %s" % (script, it, mt), replay)
+                    res = out[1]
+                    bad = set(res) != returnable
+                    for nm, v in res.items():
+                        if hasattr(v, "data") and v.data is not None:
+                            rows = {r["Id_1"]: r["Me_1"] for r in harness.dataset_rows(v)}
+                            bad = bad or any(not harness.num_eq(rows.get(i), exp[nm][i]) for i in (1, 2))
+                        elif hasattr(v, "value"):
+                            bad = bad or not harness.num_eq(v.value, exp[nm])
+                    if bad:
+                        rec.violation("C13:impl:clause-reference:wrong-result", "run(%r, rop=%s) returned %s" % (script, rop, sorted(res)), replay)
+                    rec.case(("impl-clause", n, sum(mask), rop, order[0] == 0, tuple(sorted(set(p[0] for p in probs + probs2))), it == mt, bad),
+                             "impl-ok" if not probs and not probs2 and it == mt and not bad else "impl-bad")
+    rec.count("states", len(states))
+
+
 def datapoints(form, k, graph):
     fr = G.frames(k)
     if form == "df":
@@ -250,6 +314,8 @@ class Check:
             for ch in harness.chunks(harness.seeded_order(gs, seed), size):
                 items.append((ch, k, impl, forms, seed))
         harness.pmap(explore_graphs, items, rec)
+        cgs = list(G.clause_graphs(2, 2)) if tier == "quick" else list(G.clause_graphs(2, 2)) + list(G.clause_graphs(3, 1))
+        harness.pmap(explore_clause_graphs, [(ch, seed) for ch in harness.chunks(harness.seeded_order(cgs, seed), 2)], rec)
         if rec.counters.get("traces_matched", 0) == 0:
             rec.tool_error("no implementation trace matched its model trace (proxy abstraction broken?)")
         return {"states": rec.counters.get("states", 0), "transitions": rec.counters.get("transitions", 0),
@@ -258,6 +324,10 @@ class Check:
 
     def replay(self, data):
         rec = harness.Recorder()
+        if "clause_graph" in data:
+            g = data["clause_graph"]
+            explore_clause_graphs(([(tuple(tuple(x) for x in g[0]), tuple((b, tuple(c)) for b, c in g[1]))], 0), rec)
+            return bool(rec.violations)
         graph = tuple(tuple(o) for o in data["graph"])
         explore_graphs(([graph], data["k"], data["level"] == "impl", (data.get("form", "df"),), 0), rec)
         return bool(rec.violations)
